@@ -65,7 +65,7 @@ func jText(v any) string {
 }
 
 var (
-	c06Keys    = []string{"a", "b", "level", "status", "msgid", "req.path", "x-y", "with space", "Ünï", "k9", "_u", "9lead", "a/b", "q\"uote", "nested", "list", "n"}
+	c06Keys    = []string{"a", "b", "level", "status", "msgid", "req.path", "x-y", "with space", "Ünï", "k9", "_u", "9lead", "a/b", "q\"uote", "nested", "list", "n", "__typename", "__v", "--x"}
 	c06Strings = []string{"", "v", "hello world", "with \"quotes\"", "back\\slash", "new\nline", "tab\there", "a=b", "ünïcödé 世界", "{\"not\":\"parsed\"}", "[1,2]", " lead", "trail ", "null", "true", "12", " ", "\x7f", "<b>&amp;</b>"}
 	c06Numbers = []string{"0", "1", "-1", "42", "200", "1.5", "-0.25", "1e3", "1E+2", "5e-1", "-0", "0.0", "123456789012", "9223372036854775807", "-9223372036854775808",
 		"9223372036854775808", "-9223372036854775809", "18446744073709551616", "1.0", "3.14159", "100000000000000000000"}
@@ -340,6 +340,16 @@ func runC06(r *vk.Run) {
 			if rng.Chance(1, 3) {
 				want = append(want, "absentkey")
 			}
+			// a requested name that no key of the line HAS but that some key of the line sanitises to
+			// (x-y -> x_y): the field list asks for the field named x_y, and there is none
+			for _, k := range doc.Keys {
+				if sk := names[k]; sk != k && isIdent(sk) && !reservedWords[sk] && rng.Chance(1, 2) {
+					if _, has := doc.Vals[sk]; !has && !inList(want, sk) {
+						want = append(want, sk)
+						c.Count("json_list_requests_sanitised_twin", 1)
+					}
+				}
+			}
 			stage := "| json " + strings.Join(want, ", ")
 			got, gotLine, msg := c06Eval(c, line, stage, nil)
 			if msg == "" && gotLine != line {
@@ -490,7 +500,7 @@ func runC06(r *vk.Run) {
 		}
 	})
 
-	lfKeys := []string{"a", "b", "level", "status", "dur", "k9", "_u", "user", "msgid", "ts"}
+	lfKeys := []string{"a", "b", "level", "status", "dur", "k9", "_u", "user", "msgid", "ts", "__typename", "__v"}
 	r.Phase("logfmt", r.N(6000, 600000), func(c *vk.Case) {
 		rng := c.Rng
 		var pairs [][2]string
